@@ -108,6 +108,7 @@ struct Cfg {
   int writer = 0; // 0 AsciiFile, 1 Gadget
   bool temperature = false;
   bool trackers = false;
+  int tracker_variant = 0; // 0: one Spectrum tracker; else number and types
   long nbuffers = 0, ntasks = 0, queue = 0; // 0 = derive
   // swarm knob: run the case once with capacities that can never be
   // exhausted, then again with pools just twice as large as that run needed,
@@ -174,6 +175,7 @@ struct Cfg {
     j["writer"] = writer;
     j["temperature"] = temperature;
     j["trackers"] = trackers;
+    j["tracker_variant"] = tracker_variant;
     j["tight_pools"] = tight_pools;
     j["nbuffers"] = (long long)nbuffers;
     j["ntasks"] = (long long)ntasks;
@@ -220,6 +222,7 @@ struct Cfg {
     c.writer = (int)j.at("writer").as_int(0);
     c.temperature = j.at("temperature").as_bool();
     c.trackers = j.at("trackers").as_bool();
+    c.tracker_variant = (int)j.at("tracker_variant").as_int(0);
     c.tight_pools = j.at("tight_pools").as_bool();
     c.nbuffers = j.at("nbuffers").as_int(0);
     c.ntasks = j.at("ntasks").as_int(0);
@@ -397,10 +400,38 @@ struct Cfg {
       double p[3];
       for (int k = 0; k < 3; ++k)
         p[k] = anchor[k] + 0.3 * sides[k];
-      t << "number of trackers: 1\ntracker[0]:\n  type: Spectrum\n  position: "
-        << vec(p, "m") << "\n  output name: " << dir
-        << "/tracker0.txt\n  minimum frequency: 13.6 eV\n  maximum frequency: "
-           "54.4 eV\n  number of bins: 10\n";
+      if (tracker_variant == 0) {
+        t << "number of trackers: 1\ntracker[0]:\n  type: Spectrum\n  position: "
+          << vec(p, "m") << "\n  output name: " << dir
+          << "/tracker0.txt\n  minimum frequency: 13.6 eV\n  maximum "
+             "frequency: 54.4 eV\n  number of bins: 10\n";
+      } else {
+        // 1-3 trackers of the three types; the first one next to the first
+        // source (inside a subgrid that has copies when the copy level > 0)
+        const int ntr = 1 + tracker_variant % 3;
+        t << "number of trackers: " << ntr << "\n";
+        for (int i = 0; i < ntr; ++i) {
+          double q[3];
+          for (int k = 0; k < 3; ++k) {
+            double f = 0.3 + 0.2 * i;
+            if (i == 0 && !sources.empty())
+              f = std::min(0.97, std::max(0.03, sources[0].f[k] + 0.01));
+            q[k] = anchor[k] + f * sides[k];
+          }
+          const int type = (tracker_variant / 3 + i) % 3;
+          t << "tracker[" << i << "]:\n  type: "
+            << (type == 0 ? "Spectrum" : type == 1 ? "WeightedSpectrum" : "Absorption")
+            << "\n  position: " << vec(q, "m") << "\n  output name: " << dir
+            << "/tracker" << i << ".txt\n";
+          if (type == 0)
+            t << "  minimum frequency: 13.6 eV\n  maximum frequency: 54.4 "
+                 "eV\n  number of bins: 10\n";
+          else if (type == 1)
+            t << "  FrequencyBins:\n    type: Linear\n    number of bins: 10\n"
+                 "    minimum frequency: 13.6 eV\n    maximum frequency: 54.4 "
+                 "eV\n";
+        }
+      }
     }
     const std::string path = dir + "/" + name;
     std::ofstream f(path);
